@@ -443,11 +443,14 @@ theorem flat_fnOf {P : Prog} (h : Flat P) (f : Nat) : (fnOf P f).body.noCall = t
 theorem invoke_flat (call : Storage → NodeId → Storage × Res Nat) (c : NodeId → Res Nat) {P : Prog} (hflat : Flat P)
     (s : Storage) (id : NodeId) (v : Nat) (hst : s.stack = []) (hmi : MapsInit s)
     (hv : evalP c P s.srcs s.maps (fnOf P id.fn).body id.arg = .ok v) :
-    ∃ fr', invoke call P s id = ({ s with runs := bump s.runs id.fn, log := id :: s.log }, .ok (v, fr')) ∧
+    ∃ fr', invoke call P s id = ({ s with runs := bump s.runs id.fn, log := id :: s.log,
+                                           events := (true, id) :: (false, id) :: s.events }, .ok (v, fr')) ∧
       FlatRes call P (fnOf P id.fn).body id.arg
-        { s with stack := ⟨id, [], 1⟩ :: s.stack, runs := bump s.runs id.fn, log := id :: s.log } ⟨id, [], 1⟩ [] v fr' := by
+        { s with stack := ⟨id, [], 1⟩ :: s.stack, runs := bump s.runs id.fn, log := id :: s.log,
+                 events := (false, id) :: s.events } ⟨id, [], 1⟩ [] v fr' := by
   obtain ⟨fr', r⟩ := evalE_flat call c P _ (flat_fnOf hflat id.fn) id.arg
-    { s with stack := ⟨id, [], 1⟩ :: s.stack, runs := bump s.runs id.fn, log := id :: s.log } ⟨id, [], 1⟩ [] v
+    { s with stack := ⟨id, [], 1⟩ :: s.stack, runs := bump s.runs id.fn, log := id :: s.log,
+             events := (false, id) :: s.events } ⟨id, [], 1⟩ [] v
     (by simp [hst]) hmi hv
   refine ⟨fr', ?_, r⟩
   unfold invoke
